@@ -1,0 +1,43 @@
+//go:build verif
+
+/*
+Copyright 2021 The Kubernetes Authors.
+
+Licensed under the Apache License, Version 2.0 (the "License");
+you may not use this file except in compliance with the License.
+You may obtain a copy of the License at
+
+    http://www.apache.org/licenses/LICENSE-2.0
+
+Unless required by applicable law or agreed to in writing, software
+distributed under the License is distributed on an "AS IS" BASIS,
+WITHOUT WARRANTIES OR CONDITIONS OF ANY KIND, either express or implied.
+See the License for the specific language governing permissions and
+limitations under the License.
+*/
+
+package policy
+
+// VerifAllowLists exposes the version-specific allow-lists (package-level sets)
+// to the verification harness, which regenerates its formal tables from them on
+// every run. Read-only; compiled only with the "verif" build tag.
+func VerifAllowLists() map[string][]string {
+	return map[string][]string{
+		"capabilities_allowed_1_0": capabilities_allowed_1_0.List(),
+		"sysctlsAllowedV1Dot0":     sysctlsAllowedV1Dot0.List(),
+		"sysctlsAllowedV1Dot27":    sysctlsAllowedV1Dot27.List(),
+		"sysctlsAllowedV1Dot29":    sysctlsAllowedV1Dot29.List(),
+		"sysctlsAllowedV1Dot32":    sysctlsAllowedV1Dot32.List(),
+		"selinuxAllowedTypes1_0":   verifSortedSet(selinuxAllowedTypes1_0.UnsortedList()),
+		"selinuxAllowedTypes1_31":  verifSortedSet(selinuxAllowedTypes1_31.UnsortedList()),
+	}
+}
+
+func verifSortedSet(l []string) []string {
+	for i := 1; i < len(l); i++ {
+		for j := i; j > 0 && l[j] < l[j-1]; j-- {
+			l[j], l[j-1] = l[j-1], l[j]
+		}
+	}
+	return l
+}
